@@ -33,6 +33,7 @@ CONSTANTS
                       \*     [lit : string, any : set of positions of an unescaped '.', end : BOOLEAN ($)]
     SkipUnservable,   \* TRUE: one unservable child is skipped (repaired); FALSE: it aborts the listing (pinned)
     SortedEnum,       \* TRUE: enumeration is sorted before the filter loop (repaired); FALSE: OS order (pinned)
+    EaExts,           \* B1: sequence of the sidecar extensions of [GopherEntry] eaexts (".abstract", ...)
     DotRuleAll        \* TRUE: literal reading - dot-files are never visible, whatever the handler;
                       \* FALSE: only UMNDirHandler hides dot-files (the documented configuration semantics)
 
@@ -217,10 +218,15 @@ PipelineM(dd, o, se) ==
 Pipeline(dd, o) == PipelineM(dd, o, SortedEnum)
 
 \* names whose own path the pipeline touches (stat/open), in order, up to an abort
+\* populating the entry of a regular file looks for its sidecars <name><ext>: a child of that very name is touched
+SidecarTouches(dd, n) ==
+    IF HandlerClass(dd, KidOf(dd, n)) \in {"file", "html"}
+    THEN SelectSeq([i \in DOMAIN EaExts |-> n \o EaExts[i]], LAMBDA x : x \in Names(dd))
+    ELSE <<>>
 RECURSIVE TouchFold(_, _, _, _)
 TouchFold(dd, ns, pp, acc) ==
     IF ns = <<>> \/ ~Running(pp) THEN acc
-    ELSE TouchFold(dd, Tail(ns), ResolveOne(dd, Head(ns), pp), Append(acc, Head(ns)))
+    ELSE TouchFold(dd, Tail(ns), ResolveOne(dd, Head(ns), pp), Append(acc, Head(ns)) \o SidecarTouches(dd, Head(ns)))
 RECURSIVE DotTouchFold(_, _, _, _)
 DotTouchFold(dd, ns, pp, acc) ==
     IF ns = <<>> \/ ~Running(pp) THEN acc
